@@ -8,10 +8,11 @@
    names an existing group (or earlier alias) and is a new name.
    `load true` stores the names upper-cased; the last theorem says that this is what the source does
    (Generated/Maskbits.v is rewritten from sdss.py on every run). *)
+From Coq Require Import String.
 From Coq Require Import ZArith List Bool Sorting.Permutation Sorting.Sorted.
 Import ListNotations.
 From PV Require Import Yanny.Bytes Yanny.Types Yanny.Parse.
-From PV Require Import C07.Model C07.Dict C07.Group C07.Proofs C07.FileModel C07.FileProofs C07.Code Generated.Maskbits.
+From PV Require Import C07.Model C07.Dict C07.Group C07.Proofs C07.FileModel C07.FileProofs C07.TableProofs C07.Code Generated.Maskbits.
 Open Scope Z_scope.
 
 (* a well-formed file always loads (no KeyError from an alias) *)
@@ -292,6 +293,107 @@ Theorem C07_file_unknown_keyerror : forall b r rows aliases m,
 Proof. exact file_unknown_keyerror. Qed.
 Print Assumptions C07_file_unknown_keyerror.
 
+
+(* ---------------------------------------------------------------------------------------------------------------
+   round 5: the loaded dictionary itself (what the correspondence run now compares cell by cell with the real one) *)
+
+(* ANY file that loads, ill-formed ones included: the keys of the dictionary are pairwise distinct and upper-case *)
+Theorem C07_table_keys : forall rows aliases m, load true rows aliases = Some m ->
+  NoDup (map fst m) /\ (forall K, In K (map fst m) -> upper K = K).
+Proof. exact load_keys. Qed.
+Print Assumptions C07_table_keys.
+
+(* the dictionary of a well-formed file satisfies the specification of the dictionary (spec_table_ok, written on the
+   raw rows): every key is a name of the file and holds exactly the (LABEL, bit) cells of its group, every group and
+   alias name is a key, no two keys coincide modulo case.  This is the checker applied to the REAL dictionary. *)
+Theorem C07_loaded_table_satisfies_spec : forall rows aliases m,
+  wf_file rows aliases = true -> load true rows aliases = Some m -> spec_table_ok rows aliases m = true.
+Proof. exact loaded_table_ok. Qed.
+Print Assumptions C07_loaded_table_satisfies_spec.
+
+Theorem C07_file_loaded_table : forall b r rows aliases m,
+  parse_raw b = Some r -> file_tables r = Some (rows, aliases) -> wf_file rows aliases = true ->
+  from_file true b = Some m -> spec_table_ok rows aliases m = true.
+Proof. exact file_loaded_table_ok. Qed.
+Print Assumptions C07_file_loaded_table.
+
+(* non-vacuity: the checker accepts the dictionary of the example file and REJECTS the dictionaries a loader that cuts
+   names would build (key TARGET cut to TARGE; label HI cut to H) and one that lacks the alias *)
+Example C07_table_checker_discriminates :
+  match load true ex_rows ex_aliases with
+  | Some m => spec_table_ok ex_rows ex_aliases m = true /\
+              spec_table_ok ex_rows ex_aliases (map (fun kv => (firstn 5 (fst kv), snd kv)) m) = false /\
+              spec_table_ok ex_rows ex_aliases (map (fun kv => (fst kv, map (fun lb => (firstn 1 (fst lb), snd lb)) (snd kv))) m) = false /\
+              spec_table_ok ex_rows ex_aliases (firstn 1 m) = false
+  | None => False
+  end.
+Proof. vm_compute. repeat split; reflexivity. Qed.
+
+(* the raw reader keeps a scalar cell of a non-numeric column whole, whatever width the typedef declares (this is what
+   file_tables relies on: a group name longer than `char flag[20]` is stored in full) *)
+Theorem C07_raw_cell_kept_whole : forall (name typ value data value' : bytes) (cols : tcols),
+  all_ws value = false -> get_token value = Some (data, value') -> classify typ = KOther -> isarray typ = false ->
+  parse_cells ((name, Some typ) :: cols) value = option_map (cons (Sc (STok data))) (parse_cells cols value').
+Proof. exact raw_cell_kept_whole. Qed.
+Print Assumptions C07_raw_cell_kept_whole.
+
+(* non-vacuity: the declared forms the generator draws are all of that kind, and a 26-character name under
+   `char flag[20]` / `char flag[3]` / `char flag[]` / `char flag` comes back whole from the bytes of a file *)
+Example C07_declared_widths_do_not_cut :
+  forallb (fun t => match classify (bs t) with KOther => negb (isarray (bs t)) | _ => false end)
+          ["char[20]"; "char[3]"; "char[]"; "char"; "char[200]"]%string = true /\
+  forallb (fun decl =>
+    match file_rows (bs ("typedef struct {" ++ decl ++ " short bit; char label[2]; } maskbits;
+maskbits ABCDEFGHIJKLMNOPQRSTUVWXYZ 63 LABEL_LONGER_THAN_TWO
+")%string) with
+    | Some (rows, []) => list_eqb row_eqb rows [(b2s (bs "ABCDEFGHIJKLMNOPQRSTUVWXYZ"%string), 63, b2s (bs "LABEL_LONGER_THAN_TWO"%string))]
+    | _ => false
+    end)
+    [" char flag[20];"; " char flag[3];"; " char flag[];"; " char flag;"; " char flag<5>;"]%string = true.
+Proof. split; vm_compute; reflexivity. Qed.
+
+(* ---------------------------------------------------------------------------------------------------------------
+   round 5: OUTSIDE the domain of the property (the statement speaks of one label per bit, and a label has one bit).
+   What the code does there is pinned, for any file: *)
+
+(* a label defined more than once in a group (any rows, well-formed or not): every cell of the dictionary built from
+   the MASKBITS rows holds the bit of the LAST row defining it -- the earlier bit is silently dropped *)
+Theorem C07_any_file_last_row_wins : forall rows G L,
+  match dget G (load_rows true rows) with Some d => dget L d | None => None end
+  = option_map rbit (find (fun r => str_eqb (rflag r) G && str_eqb (rlabel r) L) (rev rows)).
+Proof. exact load_rows_last_wins. Qed.
+Print Assumptions C07_any_file_last_row_wins.
+
+(* two labels on one bit (any dictionary): a single bit names the FIRST label carrying it in dictionary order ... *)
+Theorem C07_single_bit_first_label : forall (m : table) g d b, dget (upper g) m = Some d -> 0 <= b < 64 ->
+  flagname m g (2 ^ b) = RNames (match first_with_bit b d with Some l => [l] | None => [] end).
+Proof. exact single_bit_first_label. Qed.
+Print Assumptions C07_single_bit_first_label.
+
+(* ... so names -> value -> names is NOT the identity for the second label: the full round-trip statement is refuted
+   outside the domain, as the restriction `one label per bit` in the property anticipates *)
+Theorem C07_two_labels_one_bit_refuted : forall (m : table) g d l1 l2 b,
+  dget (upper g) m = Some d -> 0 <= b < 64 ->
+  first_with_bit b d = Some l1 -> dget (upper l2) d = Some b -> l1 <> upper l2 ->
+  model_call m (KNVN g [l2]) = RNames [l1] /\ model_call m (KNVN g [l2]) <> RNames [upper l2].
+Proof. exact two_labels_one_bit_not_identity. Qed.
+Print Assumptions C07_two_labels_one_bit_refuted.
+
+(* non-vacuity (both): file  G 3 A / G 3 B / G 5 A : label A ends on bit 5 (bit 3 of A is dropped), B is the only
+   label of bit 3; with  G 3 A / G 3 B : names(value [B]) = [A] *)
+Example C07_outside_domain_examples :
+  let G := [71] in let A := [65] in let B := [66] in
+  wf_file [(G, 3, A); (G, 3, B)] [] = false /\
+  match load true [(G, 3, A); (G, 3, B); (G, 5, A)] [] with
+  | Some m => dget G m = Some [(A, 5); (B, 3)] /\ flagname m G 8 = RNames [B] /\ flagval m G [A] = RVal 32
+  | None => False
+  end /\
+  match load true [(G, 3, A); (G, 3, B)] [] with
+  | Some m => model_call m (KNVN G [B]) = RNames [A] /\ flagval m G [A; B] = RVal 16
+  | None => False
+  end.
+Proof. vm_compute. repeat split; reflexivity. Qed.
+
 (* ---------------------------------------------------------------------------------------------------------------
    repeated labels (outside the property, which speaks of a SET of distinct labels): the behaviour is pinned --
    `+=` adds 2^bit once per occurrence, mod 2^64 *)
@@ -348,6 +450,25 @@ Print Assumptions C07_code_exist_requires_all.
 Theorem C07_code_normalises : load_upper = true.
 Proof. exact (eq_refl true). Qed.
 Print Assumptions C07_code_normalises.
+
+(* round 5: the final if / elif chain of return statements of sdss_flagexist (GENERATED as the Gallina function
+   exist_ret_code) returns, for each of the four flag combinations, the components the model assumes ... *)
+Theorem C07_code_exist_returns : code_ret4 = std_ret4.
+Proof. exact (eq_refl std_ret4). Qed.
+Print Assumptions C07_code_exist_returns.
+
+(* ... and with them the result is  l, then f if flagexist, then the per-label list if whichexist *)
+Theorem C07_exist_return_shape : forall l f which fe we,
+  assemble l f which (ret4_get std_ret4 fe we) = l :: (if fe then [f] else []) ++ (if we then which else []).
+Proof. exact assemble_std. Qed.
+Print Assumptions C07_exist_return_shape.
+
+(* round 5: which cell of the raw yanny object set_maskbits reads for which role (GENERATED string constants: the
+   tables whose size() bound the two loops, the table of the alias guard, and (table, column) for the group key, the
+   label key, the bit, the alias key and the alias target) -- they are the ones file_tables reads *)
+Theorem C07_code_reads_standard_cells : code_names = std_names.
+Proof. exact (eq_refl std_names). Qed.
+Print Assumptions C07_code_reads_standard_cells.
 
 Theorem C07_code_is_standard : code_cfg = std_cfg.
 Proof. exact (eq_refl std_cfg). Qed.
